@@ -72,6 +72,16 @@ class PathInfo:
                     if not cur:
                         return False
                 seen[d[1]] = cur
+                # `?` applied to a literal Err(..)/None (resp. Ok/Some) takes only one edge
+                subj = terms.strip(d[3])
+                if subj[0] == "call" and subj[1].endswith("::ops::Try>::branch") and subj[2]:
+                    x = terms.strip(subj[2][0])
+                    if x[0] == "agg" and x[1] == "adt":
+                        v = x[2].split("::")[-1]
+                        if v in ("Err", "None") and "Continue" in d[2] and "Break" not in d[2]:
+                            return False
+                        if v in ("Ok", "Some") and "Break" in d[2] and "Continue" not in d[2]:
+                            return False
             elif d[0] == "bool":
                 prev = seen.get(("b", d[1]))
                 if prev is not None and prev != d[2]:
